@@ -28,7 +28,7 @@ META['explanation'] += ' ' + 'R8: variant lists - every class but the last can d
 
 META['explanation'] += ' ' + 'R2 also evaluates every factory that does not inherit the generic decoder as it is, with the real enumeration and the integers its class mentions. R11: a decoded code point reaches the attribute the composer writes at that position.'
 
-META['explanation'] += ' ' + 'R12 / R13: no module level container and no class level state is written by a decoder. R14: no table over range(min(E), max(E)).'
+META['explanation'] += ' ' + 'R12 / R13: no module level container and no class level state is written by a decoder. R14: no table over range(min(E), max(E)). R15: no parsed sequence rebuilt from the keys / values of a mapping keyed by its items.'
 HERE = os.path.dirname(os.path.dirname(os.path.abspath(__file__)))
 
 
@@ -54,6 +54,7 @@ def check(ctx, report):
     from .c19 import module_level_state, stateless_parsing
     module_level_state(ctx, report, RULE='C10.R12', title='decoding a code point does not depend on code points decoded earlier: no function changes a module level container')
     exclusive_member_ranges(ctx, report)
+    parsed_sequences_kept(ctx, report)
     stateless_parsing(ctx, report, RULE='C10.R13', allow_memo=True,
                       modules=('cryptoparser/common/base.py', 'cryptoparser/common/parse.py', 'cryptoparser/tls/ciphersuite.py', 'cryptoparser/tls/algorithm.py',
                                'cryptoparser/tls/grease.py', 'cryptoparser/tls/version.py', 'cryptoparser/dnsrec/record.py', 'cryptoparser/ssh/subprotocol.py'),
@@ -157,6 +158,62 @@ def coded_fields_kept(ctx, report, RULE='C10.R11'):
                     report.add(RULE, '%s@%s' % (c.construct, diff_key(d)), d.detail)
     report.count(RULE, n)
     report.floor(RULE, 60, 'coded fields of binary classes')
+
+
+def parsed_sequences_kept(ctx, report, RULE='C10.R15', title=None):
+    """What a peer sent twice was sent twice: a list of code points (algorithm names, cipher suites, directives) is handed on
+    with every occurrence at its place.  A parse function that files the items in a mapping or set keyed by the item (or a part
+    of it) and builds the result from that mapping's ``keys()`` / ``values()`` keeps one occurrence per key - the second ``none`` of
+    ``none,zlib,none`` is gone, composed back the list is shorter, and a key that is not normalised (a directive name in the
+    letter case of the header) even makes the outcome depend on spelling.  Reported: in every function whose name contains
+    ``parse``, a local created as dict / OrderedDict / set that is filled from a loop or comprehension over a sequence and whose
+    keys / values / items (or the set itself) are turned into the sequence that is returned or handed to a constructor."""
+    report.rule(RULE, title or 'parse functions hand on every item of a parsed sequence: no result built from the keys / values of a mapping keyed by the items')
+    MAKERS = ('dict', 'set', 'OrderedDict', 'collections.OrderedDict', 'frozenset', 'dict.fromkeys', 'collections.OrderedDict.fromkeys', 'OrderedDict.fromkeys')
+    n = 0
+    for f in ctx.model.functions():
+        if f.module.external or 'parse' not in f.name:
+            continue
+        n += 1
+        made = {}
+        for st in ast.walk(f.node):
+            if isinstance(st, ast.Assign) and len(st.targets) == 1 and isinstance(st.targets[0], ast.Name):
+                v = st.value
+                if isinstance(v, (ast.Dict, ast.DictComp, ast.SetComp, ast.Set)) or \
+                        (isinstance(v, ast.Call) and ast.unparse(v.func) in MAKERS):
+                    made[st.targets[0].id] = v
+        for name, v in made.items():
+            from_sequence = isinstance(v, (ast.DictComp, ast.SetComp)) or (isinstance(v, ast.Call) and any(
+                isinstance(a, (ast.GeneratorExp, ast.ListComp, ast.Name, ast.Subscript, ast.Attribute)) for a in v.args))
+            filled_in_loop = any(isinstance(loop, (ast.For, ast.While)) and any(
+                (isinstance(x, ast.Subscript) and isinstance(x.ctx, ast.Store) and isinstance(x.value, ast.Name) and x.value.id == name) or
+                (isinstance(x, ast.Call) and isinstance(x.func, ast.Attribute) and x.func.attr in ('add', 'setdefault') and
+                 isinstance(x.func.value, ast.Name) and x.func.value.id == name) for x in ast.walk(loop)) for loop in ast.walk(f.node))
+            if not (from_sequence or filled_in_loop):
+                continue
+            # is the collection turned back into the sequence that leaves the function?
+            for x in ast.walk(f.node):
+                seq = None
+                if isinstance(x, ast.Call) and isinstance(x.func, ast.Attribute) and x.func.attr in ('keys', 'values') and \
+                        isinstance(x.func.value, ast.Name) and x.func.value.id == name:
+                    seq = x
+                if seq is None:
+                    continue
+                # handed to a call (list(...), cls(...)) or returned
+                parent_ok = False
+                for y in ast.walk(f.node):
+                    if isinstance(y, ast.Call) and any(a is seq or (isinstance(a, ast.Call) and any(b is seq for b in a.args)) for a in y.args) and \
+                            not (isinstance(y.func, ast.Name) and y.func.id in ('len', 'sorted', 'any', 'all', 'max', 'min', 'sum')):
+                        parent_ok = True
+                    if isinstance(y, ast.Return) and y.value is not None and any(z is seq for z in ast.walk(y.value)):
+                        parent_ok = True
+                if parent_ok:
+                    report.add(RULE, '%s@collapsed[%s]' % (f.construct, name),
+                               'the parsed items are filed in the mapping / set %s and the result is built from %s: an item that repeats a key is '
+                               'kept once (and a key that is not normalised makes the result depend on spelling)' % (name, ast.unparse(seq)))
+                    break
+    report.count(RULE, n)
+    report.floor(RULE, 200, 'parse functions')
 
 
 def exclusive_member_ranges(ctx, report, RULE='C10.R14'):
